@@ -11,5 +11,6 @@ for id in $IDS; do
   out=$(./check $id --tier $TIER --seed $SEED 2>&1)
   rc=$?
   e=$(date +%s)
+  [ $rc -ne 0 ] && mkdir -p out && echo "$out" > "out/runall-$id-$TIER-$SEED.log"
   echo "$id rc=$rc $((e-s))s $(echo "$out" | grep -c '^KNOWN-FINDING') known $(echo "$out" | grep -E '^(VIOLATION|INCONCLUSIVE)' | head -2 | cut -c1-160 | tr '\n' ' ')"
 done
